@@ -283,8 +283,113 @@ def job_douglas(which):
     return res
 
 
+def job_fit(family, shape, gemini, batch_size, degenerate):
+    """one symbolic epoch of the REAL fit (real GEMINI, real back-propagation) on degenerate data: every direction handed to the
+    optimiser must be defined.  degenerate in {'dup-samples', 'const-column', 'K1', 'K=n', 'batch1'}"""
+    from . import common_models as cm
+    loader.install()
+    res = _new()
+    box = {}
+
+    def setup():
+        core.CTX.merge_sign = True
+        env = cm.FitEnv(family, shape, gemini=gemini, batch_size=batch_size, max_iter=1, stop_after_training=True, assume_unclipped=True)
+        n = env.n
+        if degenerate == "dup-samples":
+            env.X[1, :] = env.X[0, :]
+
+            def post(A):
+                A = np.array(A, dtype=object, copy=True)
+                A[1, :] = A[0, :]
+                A[:, 1] = A[:, 0]
+                A[1, 1] = A[0, 0]
+                A[0, 1] = A[1, 0] = A[0, 0]
+                return A
+            env.affinity_post = post
+        if degenerate == "const-column" and cm.BASE[family] not in ("cat", "kernelrim"):
+            c = core.var("const")
+            for i in range(n):
+                env.X[i, 0] = c
+        box["env"] = env
+        return env
+
+    ex = Explorer(max_paths=800)
+    tagbase = f"fit/{family}/{cm.shape_str(shape)}/{gemini}/bs{batch_size}/{degenerate}"
+    seen = False
+    for out, pc, trace in ex.run(lambda env: env.run_fit(), setup):
+        res["paths"] += 1
+        tag = f"{tagbase}/path{res['paths']}"
+        bad = None
+        if isinstance(out, PathError):
+            bad = repr(out)[:200]
+        else:
+            env = out
+            flat = [x for s_ in env.steps for g in s_["grads"] for x in np.asarray(g, dtype=object).reshape(-1)]
+            und = [x for x in flat if isinstance(x, core.UndefinedValue) or (isinstance(x, float) and not np.isfinite(x))]
+            if und:
+                bad = f"undefined direction {und[0]!r}"
+            else:
+                dres = harness.check_defined([to_rat(x) for x in flat], pc, timeout_s=8.0, name=tag + "/every direction handed to the optimiser is defined")
+                res["queries"] += dres.get("n_guards", 0)
+                if dres["verdict"] == "unsat":
+                    res["obligations"].append({k: v for k, v in dres.items() if k != "model"})
+                elif dres["verdict"] == "sat":
+                    bad = f"guard not provable: {dres.get('what')}"
+                else:
+                    res["obligations"].append({"name": tag + "/defined", "verdict": "unknown", "how": str(dres.get("what"))})
+        if bad:
+            v, model = harness.reachable(pc, timeout_s=8.0)
+            res["queries"] += 1
+            if v == "unsat":
+                continue
+            o = {"name": tag + "/every direction handed to the optimiser is defined", "verdict": "sat", "how": bad}
+            res["obligations"].append(o)
+            rep = {"kind": "fit", "family": family, "shape": list(shape), "gemini": gemini, "batch_size": batch_size, "degenerate": degenerate}
+            if v == "sat" and replay(rep):
+                if not seen:
+                    seen = True
+                    res["violations"].append({"signature": f"{PROP}:fit:{family}:{gemini}:{degenerate}", "what": f"{family}.fit ({gemini}) produces a non-finite direction / raises on degenerate data '{degenerate}' ({bad[:80]})", "replay": rep})
+            else:
+                o["verdict"] = "inconclusive"
+        if len(res["samples"]) < 1 and not isinstance(out, PathError):
+            res["samples"].append({"config": tagbase, "steps": len(out.steps)})
+    if ex.truncated:
+        res["obligations"].append({"name": tagbase + "/exploration", "verdict": "unknown", "how": "path budget exhausted"})
+    return res
+
+
 def replay(rep, verbose=False):
     kind = rep["kind"]
+    if kind == "fit":
+        from . import common_models as cm
+        family, shape = rep["family"], tuple(rep["shape"])
+        cls, mod = cm.get_class(family, symbolic=False)
+        dm = cm.dims(family, shape)
+        rng = np.random.RandomState(0)
+        n, d = dm["n"], max(dm["d"], 2)
+        X = rng.normal(size=(n, d))
+        if rep["degenerate"] == "dup-samples":
+            X[1] = X[0]
+        if rep["degenerate"] == "const-column":
+            X[:, 0] = 1.0
+        kw = dict(n_clusters=dm["K"], max_iter=3, random_state=0)
+        if cm.BASE[family] != "cat":
+            kw["batch_size"] = rep["batch_size"]
+        if family not in ("RIM", "KernelRIM"):
+            kw["gemini"] = rep["gemini"]
+        with np.errstate(all="ignore"):
+            try:
+                m = cls(**kw).fit(X)
+            except Exception as e:
+                if verbose:
+                    print("fit raised", type(e).__name__, e)
+                return True
+            ws = m._get_weights()
+            P = m.predict_proba(X)
+            ok = all(np.all(np.isfinite(w)) for w in ws) and np.all(np.isfinite(P)) and np.isfinite(m.score(X))
+        if verbose:
+            print("weights finite / proba finite / score finite:", ok)
+        return not ok
     model = {k: Fraction(v) for k, v in rep.get("model", {}).items()}
     with np.errstate(all="ignore"):
         if kind == "gemini":
@@ -394,6 +499,14 @@ def jobs(tier):
         out.append({"name": f"prox/{w}", "target": "checks.c17:job_prox", "kwargs": dict(which=w), "timeout": 240})
     for w in ("coinciding-cuts", "duplicated-columns"):
         out.append({"name": f"douglas/{w}", "target": "checks.c17:job_douglas", "kwargs": dict(which=w), "timeout": 240})
+    fits = [("LinearModel", (2, 1, 1), "mmd_ova", None, "K1"), ("LinearModel", (2, 1, 1), "mi", None, "K1"), ("LinearModel", (2, 1, 2), "mmd_ova", None, "dup-samples"),
+            ("LinearModel", (2, 1, 2), "mmd_ovo", None, "dup-samples"), ("LinearModel", (2, 2, 2), "mi", None, "const-column"), ("LinearModel", (2, 1, 2), "mmd_ova", 1, "batch1"),
+            ("LinearModel", (2, 1, 2), "wasserstein_ova", 1, "batch1"), ("CategoricalModel", (2, 2), "mmd_ova", None, "K=n"), ("CategoricalModel", (2, 1), "wasserstein_ova", None, "K1")]
+    if not q:
+        fits += [("MLPModel", (2, 1, 1, 2), "mmd_ova", 1, "batch1"), ("LinearModel", (3, 1, 3), "mmd_ova", None, "K=n"), ("LinearModel", (2, 1, 2), "tv_ovo", None, "dup-samples"),
+                 ("LinearModel", (2, 1, 2), "hellinger_ova", 1, "batch1"), ("RIM", (2, 2, 2), "mi", None, "const-column")]
+    for fam, sh, gem, bs, deg in fits:
+        out.append({"name": f"fit/{fam}/{gem}/bs{bs}/{deg}", "target": "checks.c17:job_fit", "kwargs": dict(family=fam, shape=sh, gemini=gem, batch_size=bs, degenerate=deg), "timeout": 240 if q else 1800})
     return out
 
 
